@@ -373,9 +373,9 @@ StepM(M, F, choice) ==
          IF IsDone(M, fr.a) THEN [M |-> M, F |-> SetTop(F, FWait(fr.a, fr.b, 1))]
          ELSE IF choice = 0 THEN
               \* nothing to flush: _continue_with_batch returns None and wait_for loops; that makes progress when
-              \* a nested flush answered items while this activation's flags were stale.  Three empty
-              \* selections in a row (fr.d counts them) is a spin: the real wait_for would never return.
-              IF fr.d >= 2 THEN [M |-> Ev([M EXCEPT !.stuck = TRUE, !.sbat = Live(M)], [e |-> "Hang"]), F |-> <<>>]
+              \* a nested flush answered items while this activation's flags were stale.  Many empty
+              \* selections in a row (fr.d counts them; stale flags clear one task level per pass) is a spin: the real wait_for would never return.
+              IF fr.d >= 2 * NTasks(P) + 2 THEN [M |-> Ev([M EXCEPT !.stuck = TRUE, !.sbat = Live(M)], [e |-> "Hang"]), F |-> <<>>]
               ELSE [M |-> [M EXCEPT !.sbat = Live(M)], F |-> SetTop(F, [FWait(fr.a, fr.b, 1) EXCEPT !.d = fr.d + 1])]
          ELSE LET b == choice
                   live == Live(M)
